@@ -74,6 +74,7 @@ class GT:
         self.is_conj = conj
         self.is_tr = tr
         self._ndim = ndim
+        self.rev = False
         GT._uid += 1
         self.uid = GT._uid        # identity of this tensor VALUE (environment provenance is a set of (site, uid))
 
@@ -107,11 +108,22 @@ class GT:
     def transpose(self, axes=None):
         g = self._like()
         g.uid = self.uid
+        g.rev = getattr(self, 'rev', False)
+        ax = tuple(axes) if axes is not None else None
+        if ax in ((0, 3, 2, 1),):                         # MPO transpose: swap ket and bra legs
+            g.is_tr = not self.is_tr
+        elif ax in ((2, 1, 0), (2, 1, 0, 3), (1, 0)):     # reversal of the chain direction: swap the virtual legs
+            g.rev = not g.rev
+        elif ax in ((0, 1, 3, 2),):                       # internal leg order used by pre_/post_ site methods
+            pass
+        else:
+            self.w.require('transpose-axes-follow-the-MPS/MPO-leg-convention', False)
         return g
 
     def conj(self):
         g = self._like(conj=not self.is_conj)
         g.uid = self.uid
+        g.rev = self.rev
         return g
 
     @property
